@@ -94,19 +94,25 @@ Section States.
   Lemma cp_at_scalar p : (0 <= p)%Z -> (p < n_inp inp)%Z -> scalar (cp_at inp p).
   Proof. intros H0 Hn. rewrite Forall_forall in Hinp. apply Hinp. apply cp_at_in; assumption. Qed.
 
+  (* all projections of the two machine records *)
+  Ltac proj_all :=
+    unfold mk;
+    cbn [m_state m_ptr m_eof m_buf m_at m_br m_pw m_url st_map st_rel
+         SB.m_url SB.m_buffer SB.m_state SB.m_pointer SB.m_atSignSeen SB.m_insideBrackets SB.m_passwordTokenSeen
+         SB.set_state SB.set_buffer SB.set_url SB.set_atSignSeen SB.set_passwordTokenSeen
+         SB.decrease_pointer SB.set_pointer SB.append_to_buffer].
+
   Theorem sim_authority : sim_for (fun st => st = Authority).
   Proof.
     intros mm sm Hst [Hs Hp He Hlo Hhi Hfl Hb].
     rewrite Hst in Hs, Hb. cbn [st_map] in Hs. cbn [st_rel] in Hb.
     destruct Hb as [Hbuf [Hsc [Hlen [HR Hlp]]]].
-    destruct Hfl as [Hat [Hbr Hpw]].
     unfold mstep, sstep, step, SB.step. rewrite Hst, <- Hs. cbv beta iota zeta. rewrite He, Hp.
     set (p := (m_ptr mm + 1)%Z).
     unfold SB.authority_state.
     assert (Hrunes : runes (m_buf mm) = SB.m_buffer sm)
       by (rewrite Hbuf; apply runes_encode_runes; exact Hsc).
-    assert (Hnil : is_nil (m_buf mm) = is_nil (SB.m_buffer sm)) by (rewrite Hbuf; apply is_nil_enc).
-    (* what the terminator does *)
+    (* what the end of the authority does *)
     assert (T : forall u, R u (SB.m_url sm) ->
       out_rel inp (is_some override) sbase
         ((if m_at mm && is_nil (m_buf mm) then (fun k => mherr c u InvalidCredentials true k) else (fun k => k u))
@@ -114,38 +120,38 @@ Section States.
         (if SB.m_atSignSeen sm && is_nil (SB.m_buffer sm) then SB.SFail (SB.m_url sm)
          else SB.SCont (SB.set_state (SB.set_buffer
                  (SB.decrease_pointer sm (Z.of_nat (length (SB.m_buffer sm)) + 1)%Z) []) SB.HostState))).
-    { intros u Hu. rewrite Hnil, Hat.
-      destruct (SB.m_atSignSeen sm && is_nil (SB.m_buffer sm)) eqn:Ef.
+    { intros u Hu.
+      replace (is_nil (m_buf mm)) with (is_nil (SB.m_buffer sm)) by (rewrite Hbuf; symmetry; apply is_nil_enc).
+      replace (SB.m_atSignSeen sm) with (m_at mm) by (apply Hfl).
+      destruct (m_at mm && is_nil (SB.m_buffer sm)) eqn:Ef.
       - destruct (mherr_fatal c u InvalidCredentials
-          (fun u0 => Cont (mk HostSt (p - (len (runes (m_buf mm)) + 1))%Z false [] (SB.m_atSignSeen sm) (m_br mm) (m_pw mm) u0)))
+          (fun u0 => Cont (mk HostSt (p - (len (runes (m_buf mm)) + 1))%Z false [] (m_at mm) (m_br mm) (m_pw mm) u0)))
           as [e ->].
         cbn [out_rel]. apply R_noted. exact Hu.
-      - cbn [out_rel]. rewrite Hrunes. unfold len.
-        destruct sm as [su sst sbuf sa sbr spw sp].
-        cbn [SB.m_url SB.m_buffer SB.m_state SB.m_pointer SB.m_atSignSeen SB.m_insideBrackets SB.m_passwordTokenSeen
-             SB.set_state SB.set_buffer SB.decrease_pointer SB.set_pointer] in *.
-        constructor; unfold mk; cbn [m_state m_ptr m_eof m_buf m_at m_br m_pw m_url st_map st_rel
-             SB.m_url SB.m_buffer SB.m_state SB.m_pointer SB.m_atSignSeen SB.m_insideBrackets SB.m_passwordTokenSeen].
+      - cbn [out_rel]. rewrite Hrunes. unfold len. clear Ef.
+        destruct sm as [su sst sbuf sa sbr spw sp]. proj_all. cbn [SB.m_buffer SB.m_pointer SB.m_url] in *.
+        constructor; proj_all.
         + reflexivity.
         + rewrite Hp. reflexivity.
-        + lia.
-        + rewrite points_to_eof_spec. lia.
-        + unfold flags_rel. cbn [m_at m_br m_pw SB.m_atSignSeen SB.m_insideBrackets SB.m_passwordTokenSeen].
-          repeat split; assumption.
+        + clear - Hlo Hlen. lia.
+        + rewrite points_to_eof_spec. clear - Hlo Hhi Hlen. lia.
+        + exact Hfl.
         + split; [reflexivity|]. split; [constructor|]. split; [exact Hu|exact Hlp].
         + discriminate. }
     destruct (n_inp inp <=? p)%Z eqn:En.
     - (* the EOF code point *)
-      unfold input. rewrite here_eof by lia.
+      unfold input. rewrite here_eof by (clear - En; lia).
       cbn [SB.c_of hd_error SB.c_is SB.c_is_eof SB.ends_authority orb].
       change (rune_error =? 64) with false. cbv iota.
       apply T. exact HR.
     - (* a code point *)
-      unfold input. rewrite (here_cons inp p) by lia.
+      assert (Hp0 : (0 <= p)%Z) by (clear - Hlo; lia).
+      assert (Hpn : (p < n_inp inp)%Z) by (clear - En; lia).
+      unfold input. rewrite (here_cons inp p Hp0 Hpn).
       cbn [SB.c_of hd_error SB.c_is SB.c_is_eof]. unfold SB.ends_authority.
       cbn [SB.c_is SB.c_is_eof orb].
       set (r := cp_at inp p).
-      assert (Hr : scalar r) by (apply cp_at_scalar; lia).
+      assert (Hr : scalar r) by (apply cp_at_scalar; assumption).
       destruct (r =? 64) eqn:E64.
       + (* '@' *)
         rewrite mherr_warn by exact Hfail.
@@ -154,28 +160,24 @@ Section States.
         match goal with |- context [cred_loop c (runes ?x)] =>
           assert (Eb : runes x
                      = if SB.m_atSignSeen sm then [37;52;48] ++ SB.m_buffer sm else SB.m_buffer sm) end.
-        { rewrite Hat. destruct (SB.m_atSignSeen sm); [|exact Hrunes].
+        { replace (SB.m_atSignSeen sm) with (m_at mm) by (apply Hfl).
+          destruct (m_at mm); [|exact Hrunes].
           rewrite runes_app_ascii_l by (repeat constructor; lia). rewrite Hrunes. reflexivity. }
         rewrite Eb. rewrite cred_loop_spec.
-        destruct sm as [su sst sbuf sa sbr spw sp].
-        cbn [SB.m_url SB.m_buffer SB.m_state SB.m_pointer SB.m_atSignSeen SB.m_insideBrackets SB.m_passwordTokenSeen
-             SB.set_state SB.set_buffer SB.set_url SB.set_atSignSeen SB.set_passwordTokenSeen] in *.
-        rewrite Hpw.
+        replace (m_pw mm) with (SB.m_passwordTokenSeen sm) by (symmetry; apply Hfl).
+        destruct sm as [su sst sbuf sa sbr spw sp]. proj_all. cbn [SB.m_buffer SB.m_pointer SB.m_url SB.m_state] in *.
         set (l := if sa then [37;52;48] ++ sbuf else sbuf).
         pose proof (cred_frame_fold l su spw) as Fr.
         destruct (fold_left SB.authority_code_point l (su, spw)) as [su' pts]. cbn [fst snd] in *.
-        cbn [out_rel SB.m_url SB.m_buffer SB.m_state SB.m_pointer SB.m_atSignSeen SB.m_insideBrackets
-             SB.m_passwordTokenSeen SB.set_state SB.set_buffer SB.set_url SB.set_atSignSeen SB.set_passwordTokenSeen].
-        constructor; unfold mk; cbn [m_state m_ptr m_eof m_buf m_at m_br m_pw m_url st_map st_rel
-             SB.m_url SB.m_buffer SB.m_state SB.m_pointer SB.m_atSignSeen SB.m_insideBrackets SB.m_passwordTokenSeen].
+        cbn [out_rel].
+        constructor; proj_all.
         * exact Hs.
         * exact Hp.
-        * lia.
-        * rewrite points_to_eof_spec. lia.
-        * unfold flags_rel. cbn [m_at m_br m_pw SB.m_atSignSeen SB.m_insideBrackets SB.m_passwordTokenSeen].
-          repeat split; [exact Hbr].
-        * split; [reflexivity|]. split; [constructor|]. split; [cbn [length]; lia|]. split.
-          -- apply R_cred; [|exact Fr]. apply R_noted. exact HR.
+        * clear - Hp0. lia.
+        * rewrite points_to_eof_spec. clear - Hp0 Hpn. lia.
+        * destruct Hfl as [_ [Hbr _]]. repeat split. exact Hbr.
+        * split; [reflexivity|]. split; [constructor|]. split; [cbn [length]; clear - Hp0; lia|]. split.
+          -- apply (R_cred _ su su'); [apply R_noted; exact HR|exact Fr].
           -- unfold list_path, SU.has_opaque_path in *. destruct Fr as [_ [_ [_ [F4 _]]]]. rewrite F4. exact Hlp.
         * discriminate.
       + (* not '@' *)
@@ -186,25 +188,74 @@ Section States.
         * (* the authority ends *)
           apply T. exact HR.
         * (* append *)
-          cbn [out_rel].
-          destruct sm as [su sst sbuf sa sbr spw sp].
-          cbn [SB.m_url SB.m_buffer SB.m_state SB.m_pointer SB.m_atSignSeen SB.m_insideBrackets SB.m_passwordTokenSeen
-               SB.append_to_buffer SB.set_buffer] in *.
-          constructor; unfold mk; cbn [m_state m_ptr m_eof m_buf m_at m_br m_pw m_url st_map st_rel
-               SB.m_url SB.m_buffer SB.m_state SB.m_pointer SB.m_atSignSeen SB.m_insideBrackets SB.m_passwordTokenSeen].
+          cbn [out_rel]. clear Et Esp E64 T.
+          destruct sm as [su sst sbuf sa sbr spw sp]. proj_all. cbn [SB.m_buffer SB.m_pointer SB.m_url SB.m_state] in *.
+          constructor; proj_all.
           -- exact Hs.
           -- exact Hp.
-          -- lia.
-          -- rewrite points_to_eof_spec. lia.
-          -- unfold flags_rel. cbn [m_at m_br m_pw SB.m_atSignSeen SB.m_insideBrackets SB.m_passwordTokenSeen].
-             repeat split; assumption.
+          -- clear - Hp0. lia.
+          -- rewrite points_to_eof_spec. clear - Hp0 Hpn. lia.
+          -- exact Hfl.
           -- split.
              { rewrite Hbuf, enc_runes_app. unfold encode_runes at 3. cbn [flat_map]. rewrite app_nil_r. reflexivity. }
              split.
              { apply Forall_app. split; [exact Hsc|]. constructor; [exact Hr|constructor]. }
-             split; [rewrite app_length; cbn [length]; lia|]. split; [exact HR|exact Hlp].
+             split; [rewrite app_length; cbn [length]; clear - Hlen; lia|]. split; [exact HR|exact Hlp].
           -- discriminate.
   Qed.
 End States.
 
 Print Assumptions sim_authority.
+
+(* ================================================================== *)
+(* the premises are satisfiable: the authority "a@b:c@h" of an http URL, the pointer on the second '@' *)
+(* ================================================================== *)
+Definition auth_ex_inp : list rune := map Good [97;64;98;58;99;64;104].
+Definition auth_ex_su : SU.surl := SU.mkSUrl SU.sc_http [97] [] None None (SU.PList []) None None.
+Definition auth_ex_u : url := set_username (set_scheme (empty_url []) [104;116;116;112]) [97].
+Definition auth_ex_mm : mstate := mk Authority 4 false [98;58;99] true false false auth_ex_u.
+Definition auth_ex_sm : SB.machine := SB.mkM auth_ex_su SB.AuthorityState [98;58;99] true false false 5.
+
+Example sim_authority_premises :
+  std_cfg default_cfg /\ Forall scalar (map rv auth_ex_inp) /\ m_state auth_ex_mm = Authority /\
+  Rel_before auth_ex_inp false None auth_ex_mm auth_ex_sm.
+Proof.
+  split; [exact std_cfg_default|]. split.
+  { apply Forall_forall. intros x Hx. apply scalarb_spec.
+    assert (F : forallb scalarb (map rv auth_ex_inp) = true) by (vm_compute; reflexivity).
+    rewrite forallb_forall in F. apply F. exact Hx. }
+  split; [reflexivity|].
+  constructor.
+  - reflexivity.
+  - reflexivity.
+  - reflexivity.
+  - vm_compute. discriminate.
+  - vm_compute. reflexivity.
+  - repeat split; reflexivity.
+  - change (st_rel false None Authority 4 [98;58;99] auth_ex_u auth_ex_sm). cbn [st_rel].
+    split; [vm_compute; reflexivity|]. split.
+    + apply Forall_forall. intros x Hx. apply scalarb_spec.
+      assert (F : forallb scalarb [98;58;99] = true) by (vm_compute; reflexivity).
+      rewrite forallb_forall in F. apply F. exact Hx.
+    + split; [vm_compute; discriminate|].
+      split; [constructor; vm_compute; try split; reflexivity|reflexivity].
+Qed.
+
+(* what the theorem gives on it: both sides prepend "%40" and split at the first ':' -- username "a%40b", password "c" *)
+Example sim_authority_instance :
+  out_rel auth_ex_inp false None
+    (mstep (fun s => (s, true)) default_cfg auth_ex_inp None None auth_ex_mm)
+    (sstep (fun s => (s, true)) default_cfg auth_ex_inp None None auth_ex_sm) /\
+  (exists mm', mstep (fun s => (s, true)) default_cfg auth_ex_inp None None auth_ex_mm = Cont mm' /\
+               u_username (m_url mm') = [97;37;52;48;98] /\ u_password (m_url mm') = [99] /\
+               m_state mm' = Authority /\ m_buf mm' = [] /\ m_at mm' = true /\ m_pw mm' = true) /\
+  (exists sm', sstep (fun s => (s, true)) default_cfg auth_ex_inp None None auth_ex_sm = SB.SCont sm' /\
+               SU.u_username (SB.m_url sm') = [97;37;52;48;98] /\ SU.u_password (SB.m_url sm') = [99] /\
+               SB.m_state sm' = SB.AuthorityState /\ SB.m_buffer sm' = [] /\ SB.m_passwordTokenSeen sm' = true).
+Proof.
+  destruct sim_authority_premises as [P1 [P2 [P3 P4]]].
+  split; [|split].
+  - exact (sim_authority (fun s => (s, true)) default_cfg P1 auth_ex_inp P2 None None None auth_ex_mm auth_ex_sm P3 P4).
+  - eexists. split; [vm_compute; reflexivity|]. repeat split; reflexivity.
+  - eexists. split; [vm_compute; reflexivity|]. repeat split; reflexivity.
+Qed.
